@@ -68,7 +68,7 @@ def roles(crate):
             raise Anchor("Reader: expected exactly one %s field, found %d" % (what, len(c)))
         return c[0]
 
-    r.BUF = one(lambda t: t.startswith("[u8;"), "[u8; N] buffer")
+    r.BUF = one(lambda t: t.startswith("[u8;") or t.replace("alloc::", "std::") in ("std::boxed::Box<[u8]>", "std::vec::Vec<u8>"), "byte buffer ([u8; N], Box<[u8]> or Vec<u8>)")
     r.SRC = one(lambda t: "dyn std::io::Read" in t, "Box<dyn Read> source")
     r.EOF = one(lambda t: t == "bool", "bool end-of-input flag")
     us = [i for i, f in enumerate(fs) if f["ty"] == "usize"]
@@ -78,19 +78,42 @@ def roles(crate):
     r.refill = util.need_body(crate, "Reader::<'a>::refill")
     r.peek = util.need_body(crate, "Reader::<'a>::peek")
     r.skip_ws = util.need_body(crate, "Reader::<'a>::skip_whitespace")
+    # private helpers reachable from refill and called from nowhere else belong to refill (`read_retrying`)
+    cand = util.private_helpers(crate, "Reader", exclude=[r.refill, r.peek, r.skip_ws])
+    allowed = util.allowed_writers(crate, {r.refill.name}, cand)
+    r.source_fns = [r.refill] + [h for h in cand if h.name in allowed]
     # end = the cursor that offsets the slice handed to the source
     r.END = None
-    I = absint.Interp(r.refill).run()
-    for st in I.all_end_states() + I.diverged:
-        for ev in st.event_list():
-            if ev.kind == "call" and ev.extra.get("name") == "read" and ev.extra.get("trait") == "std::io::Read":
-                for s in subterms(ev.args[1]):
-                    if s[0] == "load" and s[2][0] == "field" and s[2][2] in us:
-                        r.END = s[2][2]
+    for sb in r.source_fns:
+        I = absint.Interp(sb).run()
+        for st in I.all_end_states() + I.diverged:
+            for ev in st.event_list():
+                if ev.kind == "call" and ev.extra.get("name") == "read" and ev.extra.get("trait") == "std::io::Read":
+                    for s in subterms(ev.args[1]):
+                        if s[0] == "load" and s[2][0] == "field" and s[2][2] in us:
+                            r.END = s[2][2]
     if r.END is None:
         raise Anchor("cannot identify the `end` cursor: no Read::read(&mut buf[end..]) in refill")
     r.BEGIN = [u for u in us if u != r.END][0]
+    # private non-recursive helpers of the Reader are judged in the context of their callers (inlined)
+    r.helpers = [h for h in util.private_helpers(crate, "Reader", exclude=[r.refill, r.peek, r.skip_ws])]
     return r
+
+
+def buf_field(pl, r):
+    """pl is the reader's byte buffer, possibly behind the Box / Vec that owns it -> the field place"""
+    for _ in range(6):
+        if not isinstance(pl, tuple) or not pl:
+            return None
+        if pl[0] == "field" and pl[2] == r.BUF:
+            return pl
+        if pl[0] in ("deref", "boxptr"):
+            pl = pl[1]
+        elif pl[0] == "load":
+            pl = pl[2]
+        else:
+            return None
+    return None
 
 
 def reader_place_of(arg):
@@ -181,6 +204,7 @@ class Ctx:
         if k in self.cache:
             return self.cache[k]
         inline = {self.r.peek.key} if inline_peek and body.key != self.r.peek.key else set()
+        inline |= {h.key for h in self.r.helpers if h.key != body.key}
         I = absint.Interp(body, inline=inline, hooks={"post_call": self.post_call, "loop_head": self.loop_head}, assume=self.assume)
         I.record_index_reads = True
         # the reader parameter
@@ -201,7 +225,10 @@ class Ctx:
 
 def reading_bodies(crate, r):
     out = []
+    hk = {h.key for h in r.helpers}
     for b in crate.bodies:
+        if b.key in hk or (b.is_closure and b.parent in hk):
+            continue  # inlined into every caller
         if b.is_closure:
             if any((t or "").startswith("&mut") and "Reader<" in t for t in b.upvar_types().values()):
                 out.append(b)
@@ -259,10 +286,11 @@ def check(col, prog, tier, profile, fixture=None):
             for ev in st.event_list():
                 if ev.kind == "idxread":
                     pl = ev.place
-                    if not (pl[1][0] == "field" and pl[1][2] == r.BUF):
+                    bf = buf_field(pl[1], r)
+                    if bf is None:
                         continue
                     facts, mem, path = ev.state
-                    rpl = pl[1][1]
+                    rpl = bf[1]
                     bt, et = cx.inv(I, mem, rpl)
                     key = (ev.bb, "idx", facts)
                     if key in seen:
@@ -288,7 +316,7 @@ def check(col, prog, tier, profile, fixture=None):
                     seen.add(key)
                     bt, et = cx.inv(I, mem, rpl)
                     loc = _loc(I, b, ev)
-                    in_refill = b.key == r.refill.key
+                    in_refill = b.key == r.refill.key or b.key in {x.key for x in r.source_fns}
                     if ev.place[2] == r.END:
                         if in_refill:
                             col.ok("W5" + sfx, loc, "%s|end-store" % fk(b), tstr(ev.val), nontrivial=False)
@@ -441,7 +469,7 @@ def _refill_rules(col, cx, r, sfx):
         pre_stores = [e for e in stores if evs.index(e) < evs.index(rd)]
         if compact:
             ok = len(cw) == 1 and cw[0].args[1][0] == "agg" and cw[0].args[1][2] == (beg0, end0) and cw[0].args[2] == mk_int(0) and evs.index(cw[0]) < evs.index(rd)
-            ok = ok and cw[0].args[0] == ("ref", ("field", rp, r.BUF))
+            ok = ok and cw[0].args[0][0] == "ref" and buf_field(cw[0].args[0][1], r) == ("field", rp, r.BUF)
             vals = {e.place[2]: e.val for e in pre_stores if e.place[0] == "field"}
             ok = ok and util.lin_equal(vals.get(r.END, mk_int(-1)), ("bin", "Sub", end0, beg0)) and vals.get(r.BEGIN) == mk_int(0)
             if ok:
@@ -454,7 +482,7 @@ def _refill_rules(col, cx, r, sfx):
         # slice handed to the source: buf[end_now..]
         end_now = I.load(rd.state[1], ("field", rp, r.END))
         a1 = rd.args[1]
-        ok = a1[0] == "ref" and a1[1][0] == "range" and a1[1][1] == ("field", rp, r.BUF)
+        ok = a1[0] == "ref" and a1[1][0] == "range" and buf_field(a1[1][1], r) == ("field", rp, r.BUF)
         if ok:
             rg = a1[1][2]
             ok = rg[0] == "agg" and rg[1][1].endswith("RangeFrom") and rg[2] == (end_now,)
@@ -473,11 +501,19 @@ def _refill_rules(col, cx, r, sfx):
             d = zones.lin_sub(zones.linearize(endst[-1].val), zones.linearize(end_now))
             if len(d[0]) == 1 and d[1] == 0 and list(d[0].values()) == [1]:
                 bytes_t = list(d[0])[0]
-        okb = bytes_t is not None and any(s == rd.res for s in subterms(bytes_t))
         zero = None
+        zt = None
         for f in st.facts:
-            if f[0] == "eq" and isinstance(f[1], tuple) and f[1][0] == "bin" and f[1][1] == "Eq" and f[1][2] == bytes_t and f[1][3] == mk_int(0):
-                zero = bool(f[2])
+            t = f[1]
+            if not isinstance(t, tuple):
+                continue
+            if f[0] == "eq" and t[0] == "bin" and t[1] in ("Eq", "Ne") and t[3] == mk_int(0) and any(s == rd.res for s in subterms(t[2])):
+                zero, zt = (bool(f[2]) == (t[1] == "Eq")), t[2]
+            elif f[0] in ("eq", "ne") and f[2] == 0 and t[0] in ("call", "proj", "cast") and any(s == rd.res for s in subterms(t)):
+                zero, zt = (f[0] == "eq"), t
+        if bytes_t is None and zero and not endst:
+            bytes_t = zt  # `0 => eof = true` leaves end as it is: end += 0
+        okb = bytes_t is not None and any(s == rd.res for s in subterms(bytes_t)) and (zt is None or zt == bytes_t)
         oke = zero is not None and ((zero and len(eofst) == 1 and eofst[0].val == mk_int(1)) or (not zero and not eofst))
         key = "%s|advance|%s|%s" % (fk(b), "compact" if compact else "plain", "zero" if zero else "nonzero")
         if okb and oke:
@@ -501,7 +537,7 @@ def _refill_rules(col, cx, r, sfx):
         col.violation("W2" + sfx, "%s|paths" % fk(b), b.loc(), "expected refill paths with and without compaction, found %d reading paths" % nread)
 
     # ---- W3
-    allst = I.final_states + I.diverged + [s for l in I.backedge_states.values() for s in l]
+    allst = I.final_states + I.diverged + [s for l in I.backedge_states.values() for s in l] + I.inl_back
     retry = False
     bad = None
     nerr = 0
@@ -525,7 +561,7 @@ def _refill_rules(col, cx, r, sfx):
                 inter = [v for v, n_ in nm.items() if n_ == "Interrupted"]
                 if inter and f[2] == inter[0]:
                     tested = f[0] == "eq"
-        is_back = any(st in l for l in I.backedge_states.values())
+        is_back = any(st in l for l in I.backedge_states.values()) or st in I.inl_back
         unwraps = [e for e in evs if e.kind == "call" and e.extra.get("name") in ("unwrap", "expect") and evs.index(e) > evs.index(rd)]
         if is_back:
             if is_err and tested is True:
@@ -569,8 +605,9 @@ def _source_rules(col, crate, r, sfx):
                 for e in pl["p"]:
                     if e[0] == "field" and e[1] == r.SRC and "dyn std::io::Read" in (e[3] or ""):
                         users.setdefault(b.key, b)
+    src_keys = {x.key for x in r.source_fns}
     for k, b in users.items():
-        if b.key == r.refill.key:
+        if b.key in src_keys:
             # only Read::read may be called on it
             I = absint.Interp(b).run()
             names = set()
@@ -662,8 +699,25 @@ def _composite_rules(col, cx, crate, r, sfx):
         if rd and ps and evs.index(rd[-1]) < evs.index(ps[-1]) and ps[-1].args[1] == rd[-1].res:
             okv = True
     rng_ok = any(v[0] == "rangeiter" and v[1] == mk_int(0) and v[2] == ("param", 2, I.names.get(2)) for st in I.all_end_states() for v in st.env.values() if isinstance(v, tuple) and v)
+    if not (okv and rng_ok):
+        # iterator form: (0..n).map(|_| self.read()).collect()  (map is lazy and in order; collect drives it)
+        n_ = ("param", 2, I.names.get(2))
+        for st in I.final_states:
+            ret = util.ret_term(st)
+            if not (ret[0] == "call" and str(ret[1]).endswith("collect")):
+                continue
+            for s_ in subterms(ret):
+                if s_[0] == "call" and str(s_[1]).endswith("Iterator::map") and len(s_[2]) >= 2:
+                    rg, clo = s_[2][0], s_[2][1]
+                    rg_ok = rg[0] == "agg" and isinstance(rg[1], tuple) and str(rg[1][1]).endswith("ops::Range") and rg[2] == (mk_int(0), n_)
+                    cb = crate.by_key.get(clo[1][1]) if clo[0] == "agg" and isinstance(clo[1], tuple) and clo[1][0] == "closure" else None
+                    if rg_ok and cb is not None:
+                        Ic = cx.analyse(cb)
+                        one = all(len([e for e in fs.event_list() if e.kind == "call" and e.extra.get("name") == "read"]) == 1 and util.ret_term(fs) == [e for e in fs.event_list() if e.kind == "call" and e.extra.get("name") == "read"][0].res for fs in Ic.final_states)
+                        if one and Ic.final_states:
+                            okv = rng_ok = True
     if okv and rng_ok:
-        col.ok("W7" + sfx, b.loc(), "%s|n-reads-in-order" % fk(b), "for _ in 0..n { push(read()) }")
+        col.ok("W7" + sfx, b.loc(), "%s|n-reads-in-order" % fk(b), "one read per element of 0..n, results collected in order")
     else:
         col.violation("W7" + sfx, "%s|n-reads-in-order" % fk(b), b.loc(), "read_vec must push the result of one read per iteration of 0..n")
     # is_eof
